@@ -125,7 +125,22 @@ TEMPLATES.append(
         "Foo2": {"k": "Obj", "name": "Foo2", "pyname": "Foo", "base": None, "doc": None, "kw": {}, "props": {
             "a": {"e": {"k": "Integer", "kw": {}}, "required": False, "source": None}}}},
      "order": ["Foo", "Foo2"], "root": {"k": "Array", "items": [{"k": "Ref", "name": "Foo"}, {"k": "Ref", "name": "Foo2"}], "kw": {"additionalItems": False}}})
-TEMPLATE_VALUES = [[{"a": "x"}, {"a": 1}], [{"a": 1}, {"a": 1}], [{"class": "c", "n": 1, "extra": 0}], [{"class": "c", "extra": 0, "p 1": {"class": "d", "extra": 1}}, {"class": "c", "extra": 1}, {"class": "e", "extra": 2}],
+TEMPLATES.append(
+    # classes reachable ONLY through a keyword that is inert in its context (additionalItems next to single / absent items),
+    # through contains, propertyNames, dependencies and a Not: each needs its definitions entry
+    {"classes": {"Extra": {"k": "Obj", "name": "Extra", "base": None, "doc": None, "kw": {}, "props": {
+        "e": {"e": {"k": "Integer", "kw": {}}, "required": True, "source": None}}},
+        "Dep": {"k": "Obj", "name": "Dep", "base": None, "doc": None, "kw": {}, "props": {
+            "d": {"e": {"k": "String", "kw": {}}, "required": False, "source": None}}},
+        "Cont": {"k": "Obj", "name": "Cont", "base": None, "doc": None, "kw": {"minProperties": 1}, "props": {}}},
+     "order": ["Extra", "Dep", "Cont"],
+     "root": {"k": "Element", "kw": {"properties": {
+         "l": {"e": {"k": "Array", "items": {"k": "String", "kw": {}}, "kw": {"additionalItems": {"k": "Ref", "name": "Extra"}}}, "required": False, "source": None},
+         "m": {"e": {"k": "Element", "kw": {"additionalItems": {"k": "Ref", "name": "Extra"}, "contains": {"k": "Ref", "name": "Cont"}}}, "required": False, "source": None},
+         "n": {"e": {"k": "Not", "element": {"k": "Ref", "name": "Dep"}}, "required": False, "source": None}},
+         "dependencies": {"l": {"k": "Ref", "name": "Dep"}}}}})
+TEMPLATE_VALUES = [{"l": ["a"], "m": [{"z": 1}], "n": 1}, {"l": ["a"], "d": 3}, {"m": [{}]}, {"n": {"d": "s"}},
+                   [{"a": "x"}, {"a": 1}], [{"a": 1}, {"a": 1}], [{"class": "c", "n": 1, "extra": 0}], [{"class": "c", "extra": 0, "p 1": {"class": "d", "extra": 1}}, {"class": "c", "extra": 1}, {"class": "e", "extra": 2}],
                    [{"class_": "c", "extra": 0}], {"x": 1, "class": "c", "y": 2}, {"class": "c", "y": 2}, {"x": 1, "y": 2}, {"x": 1, "class_": "c", "y": 2},
                    {"x": 1}, {}, [{"class": "c", "extra": 0, "zzz": 1}]]
 
@@ -137,7 +152,8 @@ def run(tier, seed, replay=None):
     rng = rng_for(seed, "C03")
     stats = {"documents": 0, "with_definitions_arg": 0, "multi_root": 0, "refs": 0, "values": 0, "accepted": 0, "rejected": 0, "k15": 0,
              "metaschema_checked": 0, "unresolvable": 0}
-    docs = [json.load(open(replay))["doc"]] if replay else list(TEMPLATES)
+    # the templates run twice: first bare (no caller definitions, one root), then with the random extras below
+    docs = [json.load(open(replay))["doc"]] if replay else list(TEMPLATES) + list(TEMPLATES)
     if not replay:
         for _ in range(140 if tier == "quick" else 2500):
             d = dslgen.gen_doc(rng, dslgen.Cfg(max_depth=rng.choice([2, 3]), explicit_required=0.4))
@@ -169,13 +185,14 @@ def run(tier, seed, replay=None):
         # caller-supplied definitions: some sub-elements of the tree, referenced everywhere else
         elems, _ = walk(root)
         defs = None
-        if not replay and rng.random() < 0.3 and len(elems) > 1:
+        bare = not replay and di < len(TEMPLATES)
+        if not replay and not bare and rng.random() < 0.3 and len(elems) > 1:
             picks = [e for e in rng.sample(elems[1:], min(2, len(elems) - 1)) if not isinstance(e, ObjectMeta)]
             if picks:
                 defs = {"def%d" % i: e for i, e in enumerate(picks)}
                 stats["with_definitions_arg"] += 1
         roots = [root]
-        if not replay and classes and rng.random() < 0.25:
+        if not replay and not bare and classes and rng.random() < 0.25:
             roots.append(rng.choice(list(classes.values())))
             stats["multi_root"] += 1
         try:
@@ -233,7 +250,7 @@ def run(tier, seed, replay=None):
             stats["unresolvable"] += 1
             res.violation(dict(payload, kind="oracle", document=J, what="the document's references are cyclic or malformed"))
             continue
-        vals = (TEMPLATE_VALUES if di < len(TEMPLATES) and not replay else []) + dslgen.gen_values(rng, doc, 8)
+        vals = (TEMPLATE_VALUES if di < 2 * len(TEMPLATES) and not replay else []) + dslgen.gen_values(rng, doc, 8)
         # one member removed from the first accepted object-bearing values: aimed at `required` in both of its stored forms
         extra = []
         for v in vals:
